@@ -5,6 +5,7 @@ package main
 //   c11m: the handle table (Srv/Handles.v hstep)   - issued handles, per-request failure, close / transfer-error counts
 
 import (
+	"encoding/binary"
 	"bytes"
 	"fmt"
 	"io"
@@ -41,6 +42,7 @@ func runC07m(c *Ctx) {
 	defer os.RemoveAll(root)
 	run := 0
 	placeholder := root + "/rXXXX"
+	badInit := false // set for streams whose INIT is malformed: the oracle then demands that nothing was carried out
 	one := func(stream []byte, names []string, nt bool) {
 		run++
 		dir := filepath.Join(root, fmt.Sprintf("r%04d", run))
@@ -68,7 +70,11 @@ func runC07m(c *Ctx) {
 			m = "-"
 		}
 		c.Obs(n, kvs("made", m), kvb("nil", rerr == nil))
-		c.Oracle(n, true, "")
+		if badInit && len(made) > 0 {
+			c.Oracle(n, false, fmt.Sprintf("malformed-init: the INIT frame of this stream does not decode (bytes after the version that are not whole extension pairs), yet the requests behind it were carried out (%s)", m))
+		} else {
+			c.Oracle(n, true, "")
+		}
 		os.RemoveAll(dir)
 	}
 	placeholderDir := root + "/rXXXX" // replaced per run by a real directory name of the same length
@@ -104,7 +110,69 @@ func runC07m(c *Ctx) {
 			}
 			off += len(fr)
 		}
+		// pad: every frame in turn carries 1..9 bytes after its last field, its length field saying so (an INIT whose rest is not
+		// a whole number of extension pairs is malformed and ends the session before anything is done; bytes after the last
+		// field of a request are not looked at); and INIT frames with one and two well-formed extension pairs, alone and followed
+		// by 1..7 bytes that are not a pair
+		pad := func(fr []byte, extra []byte) []byte {
+			t := append(append([]byte(nil), fr...), extra...)
+			binary.BigEndian.PutUint32(t, uint32(len(t)-4))
+			return t
+		}
+		junk := []byte{0, 0, 0, 1, 0x41, 0xff, 0, 0, 0}
+		for fi := range frames {
+			for kk := 1; kk <= len(junk); kk++ {
+				for _, ex := range [][]byte{junk[:kk], bytes.Repeat([]byte{0}, kk), junk[len(junk)-kk:]} {
+					var m []byte
+					for j, fr := range frames {
+						if j == fi {
+							badInit = fi == 0 && !wholePairs(ex)
+							m = append(m, pad(fr, ex)...)
+						} else {
+							m = append(m, fr...)
+						}
+					}
+					one(m, names, true)
+					badInit = false
+				}
+			}
+		}
+		pair := func(a, b string) []byte {
+			var o []byte
+			o = binary.BigEndian.AppendUint32(o, uint32(len(a)))
+			o = append(o, a...)
+			o = binary.BigEndian.AppendUint32(o, uint32(len(b)))
+			return append(o, b...)
+		}
+		for _, pairs := range [][]byte{pair("ext@example.com", "1"), append(pair("a", ""), pair("", "b")...)} {
+			for kk := 0; kk <= 7; kk++ {
+				m := pad(frames[0], append(append([]byte(nil), pairs...), junk[:kk]...))
+				for _, fr := range frames[1:] {
+					m = append(m, fr...)
+				}
+				badInit = !wholePairs(junk[:kk])
+				one(m, names, true)
+				badInit = false
+			}
+		}
 	}
+}
+
+// wholePairs: b is a sequence of whole extension pairs (two length-prefixed strings each), possibly empty.
+func wholePairs(b []byte) bool {
+	for len(b) > 0 {
+		for i := 0; i < 2; i++ {
+			if len(b) < 4 {
+				return false
+			}
+			l := int(binary.BigEndian.Uint32(b))
+			if l > len(b)-4 {
+				return false
+			}
+			b = b[4+l:]
+		}
+	}
+	return true
 }
 
 // ---- c11m ----
